@@ -252,7 +252,7 @@ def work(item):
                 for b in tails:
                     if len({f[0], a[0], b[0]}) < 3:
                         continue
-                    for sep in ('|', '\x1d', ''):
+                    for sep in ('|', '\x1d', '[FNC1]', ''):
                         items = [f, a, b]
                         if not _fits(items, sep):
                             items = [f, (a[0], a[1], a[2], a[3], (a[4] * 40)[:maxlen(a[1], a[2])] if a[2] == 'str' else '9' * maxlen(a[1], a[2])), b]
